@@ -33,7 +33,9 @@ def pointer_in_range(self):
         p, n = self.pointer, self.recordsz
     except Exception:  # owner gone / half-constructed
         return True
-    ok = (0 <= p < n) and not (self.ignored and p != 0)
+    # a valid index of the ring: align() takes python-style indices and keeps a negative one as given (everything else reads
+    # the pointer modulo the record size)
+    ok = (-n <= p < n) and not (self.ignored and p != 0)
     if not ok and _INV["record_only"]:
         if len(_INV["recorded"]) < 20:
             _INV["recorded"].append(f"pointer={p} recordsz={n} ignored={self.ignored}")
@@ -123,7 +125,7 @@ def _rand_op(rng, n):
     if r < 0.84:
         return {"op": "decr", "pos": rng.choice([0, 1, 1, 2, n, rng.randint(0, 2 * n)])}
     if r < 0.88:
-        return {"op": "align", "index": rng.randrange(n)}
+        return {"op": "align", "index": rng.randrange(-n, n)}
     if r < 0.90:
         return {"op": "reset", "fill": rng.choice([0, 3, None, None])}
     if r < 0.93:
@@ -264,7 +266,8 @@ def _check_state(ctx, rt, model, desc, op, step, storage_dtype):
         return "state.storage_length"
     if storage_dtype is not None and val.dtype != storage_dtype:
         return "state.storage_dtype_changed"
-    if rt.pointer != model.pointer:
+    # after align(k) with a negative k the pointer attribute holds k itself (a valid index of the ring, counted from the end)
+    if rt.pointer % n != model.pointer:
         return "state.pointer"
     p = rt.pointer
     for k in range(n):
